@@ -186,6 +186,7 @@ let run_line (line : string) : string =
           | 'g', [nc; n] -> M.BGrow (nat nc, nat n)
           | 'n', [k] -> M.BNext (nat k)
           | 'r', [k] -> M.BRead (nat k)
+          | 'f', [k] -> M.BReadFull (nat k)
           | 'z', _ -> M.BReset
           | 'b', _ -> M.BBytes
           | 'p', [i; p; h] -> M.BPoke (nat i, nat p, bytes_of_hex h)
